@@ -94,6 +94,22 @@ func buildPlan(id string, pinned map[string]string, tier string) *Plan {
 			"that lambda is an eigenvalue of phi and that the lattice basis has the stated property: number theory / initialisation code, not proved"}
 		p.Note = "mulWindowed returns the s-fold multiple of its operand for every integer s (negative, zero, of any length) in every abelian group; JointScalarMultiplication(Base) returns the combination with both scalars reduced modulo r, for all integers; ecc.SplitScalar returns (s, 0) minus an integer combination of the two lattice vectors; mulGLV and the exported ScalarMultiplication / ScalarMultiplicationBase entry points of G1 and G2 (Jacobian and affine) return (k0 mod r)*q + (k1 mod r)*lambda*q with k0 + lambda*k1 = s modulo r, for every integer s. Twisted Edwards (7 companion curves and bandersnatch): scalarMulWindowed of the projective and extended types returns the scalar-fold multiple for every integer scalar (bit-by-bit double-and-add over the words of |scalar|, the sign handled by negating the operand), and so do the exported ScalarMultiplication of the projective, extended and affine types where they go through it. Every 2-bit window / every bit of every loop is its own obligation."
 		return p
+	case "C05":
+		p := &Plan{ID: id}
+		for _, rel := range pairingPkgs("/repo") {
+			p.Units = append(p.Units, Unit{Pkg: "./" + rel, Tags: "", Groups: []string{"pairing"}})
+		}
+		p.Trusted = []string{
+			"module layer on the target group: GT is an abelian group written multiplicatively (exponent vectors over indeterminates); Mul adds, squarings double, Inverse / InverseUnitary negate",
+			"ASSUMED component contracts (none of them is under contract; their tower arithmetic is proved under C06): Expt / ExptHalf raise to the seed x / to x/2, Frobenius^i raises to p^i, Conjugate raises to p^(k/2) (hence to -1 on the cyclotomic subgroup the easy part maps into), CyclotomicSquare squares on that subgroup",
+			"the documented family polynomials p(x), r(x) of the BN / BLS12 / BLS24 curves (doc.go of each package), with the seed restricted to the residue class that makes p an integer (and x even where ExptHalf is used); the concrete seeds of the four curves lie in their class (checked when the contract was written: recorded in the contract text)"}
+		p.Assumptions = []string{"FinalExponentiation is stated for a single argument (len(_z) == 0); the product over the extra arguments is not under contract",
+			"MillerLoop, MillerLoopFixedQ and FinalExponentiation are opaque inside the entry points: only their composition is proved there"}
+		p.NotCovered = []string{"**the property's own statement**: bilinearity, non-degeneracy, the exact order of the generator pairing and the agreement of the Miller-loop variants are theorems about divisors and line functions; no contract here decides them",
+			"MillerLoop / MillerLoopFixedQ / PrecomputeLines (size checks, infinity filtering, line evaluations, the unrolled first iterations): not under contract",
+			"final exponentiations of bls24-317 (compressed squarings in a loop), bw6-633, bw6-761 (specialised exponentiation chains): not under contract; the Expt / Frobenius / cyclotomic routines themselves: not under contract"}
+		p.Note = "Partial. (1) FinalExponentiation of bn254, bls12-381, bls12-377 and bls24-315 raises to the documented exponent: after the easy part the value is z^((c-1)(p^e+1)) with c the conjugation exponent, and the hard-part chain raises to H with H*r(x) = s*Phi_k(p(x)) as an identity of polynomials in the seed, for every seed of the family. (2) On all 7 pairing curves Pair, PairingCheck, PairFixedQ and PairingCheckFixedQ return the Miller loop's error unchanged in kind (an error, no value), and otherwise the final exponentiation of exactly the Miller loop's result, compared with one by the check variants."
+		return p
 	case "C07":
 		p := &Plan{ID: id}
 		for _, pk := range marshalPkgs("/repo") {
